@@ -143,73 +143,14 @@ Definition ex_hist_bad : list hop :=
 Lemma ex_lin_rejects : lin_check false ex_hist_bad = None.
 Proof. vm_compute. reflexivity. Qed.
 
-(* ---- bounded-exhaustive support for the unproved clause: ALL interleavings (every atomic step of
-   SessLock.step, every FileSys call returning at every possible moment - including the ones the harness
-   cannot drive, such as an operation paused between its table lookup and its Lock) of small
-   configurations end with every operation returned and a history that [lin_check] accepts ---- *)
-Definition okd : outcome := OOk 3 true.
-Definition okf : outcome := OOk 3 false.
-Definition setup_dir : list (op * list outcome) := [(OpAttach 0 NOFID, [okd]); (OpWalk 0 1 1 true, [okd])].
-Definition setup_file : list (op * list outcome) := [(OpAttach 0 NOFID, [okd]); (OpWalk 0 1 1 true, [okf])].
+(* the property's side condition is needed: two attaches allocating fid 1 at once - the second finds the
+   first one's reservation (duplicate fid), then the first one's fs.Attach fails and rolls back; no order of
+   the two gives "duplicate fid" *)
+Definition ex_hist_double_alloc : list hop :=
+  [ {| h_op := OpAttach 1 NOFID; h_script := [OErr]; h_id := 0; h_inv := 0; h_ret := 3;
+       h_res := mkres R_FSERR 0; h_calls := [(K_ATTACH, 0)] |};
+    {| h_op := OpAttach 1 NOFID; h_script := [OOk 3 true]; h_id := 1; h_inv := 1; h_ret := 2;
+       h_res := mkres R_DUPFID 0; h_calls := [] |} ].
 
-(* (RequireAuth, operations, how many of them are the sequential set-up) *)
-Definition scenarios : list (bool * list (op * list outcome) * nat) :=
-  [ (* clone of a fid, clunk of it, re-use of the fid, use of the clone's fid (pre-fix delRef: not linearizable) *)
-    (false, setup_dir ++ [(OpWalk 1 2 0 true, [okd]); (OpClunk 1, [okd]); (OpWalk 0 1 1 true, [okd]); (OpStat 2, [okd])], 2%nat);
-    (* Create whose OpenDir fails, clunk, re-allocation of the fid *)
-    (false, setup_dir ++ [(OpCreate 1 false 0, [okd; OErr; okd]); (OpClunk 1, [okd]); (OpAttach 1 NOFID, [okd]); (OpStat 1, [okd])], 2%nat);
-    (false, setup_dir ++ [(OpCreate 1 false 0, [okd; OErr; okd]); (OpRemove 1, [okd]); (OpStat 1, [okd])], 2%nat);
-    (* a failing allocation racing remove and use of the new fid *)
-    (false, setup_dir ++ [(OpWalk 0 3 1 true, [OErr]); (OpRemove 3, [okd]); (OpStat 3, [okd])], 2%nat);
-    (false, setup_dir ++ [(OpAttach 3 NOFID, [OErr]); (OpClunk 3, [okd]); (OpWalk 3 2 0 true, [okd])], 2%nat);
-    (* in-place walk racing clunk and clone *)
-    (false, setup_dir ++ [(OpWalk 1 1 1 true, [okd; okd]); (OpClunk 1, [okd]); (OpWalk 1 2 0 true, [okd]); (OpWalk 0 1 1 true, [okd])], 2%nat);
-    (* open/read/write/clunk on a file *)
-    (false, setup_file ++ [(OpOpen 1 2, [okf]); (OpRead 1, [okf]); (OpClunk 1, [okf])], 2%nat);
-    (false, setup_file ++ [(OpOpen 1 2, [okf]); (OpWrite 1, [okf]); (OpRemove 1, [OErr])], 2%nat);
-    (* attach with an afid that is a bound, un-opened entry (the D8 situation), stat and clunk of it *)
-    (false, setup_dir ++ [(OpAttach 2 1, [okd]); (OpStat 1, [okd]); (OpClunk 1, [okd])], 2%nat);
-    (* two releases and a use *)
-    (false, setup_dir ++ [(OpClunk 1, [okd]); (OpRemove 1, [okd]); (OpWStat 1, [OErr])], 2%nat);
-    (* auth fid: auth, clunk of it, attach through it *)
-    (true, [(OpAttach 0 NOFID, [okd]); (OpAuth 3, [okd]); (OpClunk 3, [okd]); (OpAttach 2 3, [okd])], 1%nat);
-    (* partial walk and walk onto a bound fid racing its clunk *)
-    (false, setup_dir ++ [(OpWalk 0 1 1 true, [okd]); (OpClunk 1, [okd]); (OpWalk 0 2 2 true, [OOk 1 true])], 2%nat) ].
-
-Definition scenario_ok (sc : bool * list (op * list outcome) * nat) : bool :=
-  fst (all_interleavings_linearizable (fst (fst sc)) (snd (fst sc)) (snd sc)).
-
-Lemma small_scopes_linearizable : forallb scenario_ok scenarios = true.
-Proof. vm_compute. reflexivity. Qed.
-
-(* the check has teeth: with delRef as it was before fix 012a085 (unbind, then lock) the first scenario has
-   an interleaving whose history no sequential order explains *)
-Definition del_ref_old (f : N) (remove : bool) (k : N -> prog) : prog :=
-  LoadAndDelete f (fun o =>
-    match o with
-    | None => k R_UNKNOWNFID
-    | Some q =>
-        Lock q (ReadSF q (fun s =>
-          match s_ent s with
-          | None => Unlock q (k R_OK)
-          | Some e =>
-              Fs (call (if remove then K_REMOVE else K_CLUNK) (Some q) (e_id e)) (fun fr =>
-                WriteSF q (fun s => {| s_ent := None; s_file := s_file s; s_mode := s_mode s |})
-                  (Unlock q (k (cls_of (fr_out fr)))))
-          end))
-    end).
-
-Definition set_prog (s : state) (i : nat) (p : prog) : state :=
-  match threads s !! i with
-  | Some th => set_thread s i {| t_id := t_id th; t_prog := p; t_incall := false; t_script := t_script th;
-                                 t_ncalls := 0; t_calls := nil; t_held := nil; t_log := nil |}
-  | None => s
-  end.
-
-Definition old_delref_scenario : bool * N :=
-  let ops := setup_dir ++ [(OpWalk 1 2 0 true, [okd]); (OpClunk 1, [okd]); (OpWalk 0 1 1 true, [okd]); (OpStat 2, [okd])] in
-  let x0 := {| x_state := set_prog (init false ops) 3 (del_ref_old 1 false (fun c => ret c 0)); x_rets := nil; x_invs := nil |} in
-  xexplore 400 false ops (fold_left (xrun_alone seq_fuel) (seq 0 2) x0 :: nil) true 0.
-
-Lemma old_delref_not_linearizable : fst old_delref_scenario = false.
+Lemma double_alloc_not_linearizable : lin_check false ex_hist_double_alloc = None.
 Proof. vm_compute. reflexivity. Qed.
